@@ -314,7 +314,10 @@ def main(check_cls):
         # gate 1: the same spec in a fresh process must give the same execution and the same class
         again = _exec_in_child(check, spec)
         keys_again = [x["key"] for x in again["violations"]]
-        if again["harness_error"] or key0 not in keys_again or again["trace"] != trace:
+        # (a process stopped by the CPU-time limit is cut at a point that depends on the machine: for such a violation the
+        # class must reproduce, the event-log digest cannot)
+        trace_free = bool(v.get("extra", {}).get("trace_free"))
+        if again["harness_error"] or key0 not in keys_again or (again["trace"] != trace and not trace_free):
             print("HARNESS-ERROR: property=%s run=%d violation '%s' did not reproduce in a fresh process "
                   "(keys %s, trace %s vs %s)%s" % (check.pid, idx, key0, keys_again, again["trace"][:12], trace[:12],
                                                ("\n" + again["harness_error"]) if again["harness_error"] else ""))
